@@ -23,18 +23,22 @@ inductive Prim
   | nil           -- ReadNilBytes / ReadNil
   | entryList     -- (*EntryList).UnmarshalMsg / DecodeMsg
   | options       -- (*MessageOptions).UnmarshalMsg / DecodeMsg, on the object the field points to
+  | bool          -- ReadBoolBytes / ReadBool
 deriving DecidableEq, Repr
 
 inductive Cond
   | szNotIn (a b : Nat)   -- sz != a && sz != b
   | szEq (a : Nat)        -- sz == a
+  | szNe (a : Nat)        -- sz != a   (msgp-generated tuple decoders: `if zb0001 != 2`)
   | nextNil               -- NextType(bits) == NilType; stream: `t, _ := dc.NextType(); t == NilType`
   | nextNilOrErr          -- stream: `t, err := dc.NextType(); t == NilType || err != nil`
   | nextErr               -- `err != nil` for the error of that NextType call
 deriving DecidableEq, Repr
 
 /-- destinations: the count variable `sz` and the fields of the four receiver types, by their Go names -/
-inductive Fld | sz | Tag | Timestamp | Record | Options | Entries | EventStream | other (name : String)
+inductive Fld | sz | Tag | Timestamp | Record | Options | Entries | EventStream
+  | MessageType | ClientHostname | SharedKeySalt | SharedKeyHexDigest | Username | Password | AuthResult | Reason | ServerHostname
+  | other (name : String)
 deriving DecidableEq, Repr
 
 /-- right-hand sides of plain assignments to a field -/
@@ -53,7 +57,7 @@ inductive Stmt
 /-- values that travel between a primitive and a field -/
 inductive V
   | nat (n : Nat) | str (b : Bytes) | i64 (i : Int) | obj (o : Obj) | et (t : Instant) | unit
-  | entries (l : List EntryExt) | opts (o : Option Options)
+  | entries (l : List EntryExt) | opts (o : Option Options) | bool (b : Bool)
 
 /-- the fields of a receiver type, by their Go names -/
 structure Fields (σ : Type) where
@@ -70,6 +74,7 @@ def setVal : Rhs → Option V
 def evalCond (p : Path) (sz : Nat) (b : Bytes) : Cond → Bool
   | .szNotIn x y => sz != x && sz != y
   | .szEq x => sz == x
+  | .szNe x => sz != x
   | .nextNil => isNil b
   | .nextNilOrErr => isNil b || (p == .stream && b.isEmpty)
   | .nextErr => p == .stream && b.isEmpty
@@ -84,6 +89,7 @@ def runPrim (p : Path) (cur : Option V) (b : Bytes) : Prim → Res V
   | .eventTime => (readEventTime b).map .et
   | .bin => (readBytes b).map .str
   | .nil => (readNil b).map fun _ => .unit
+  | .bool => (readBool b).map .bool
   | .entryList => (EntryList.unmarshal p b).map .entries
   | .options =>
     match cur with
@@ -163,6 +169,43 @@ def PackedF : Fields Packed where
   get f m := match f with
     | .Options => some (.opts m.options)
     | _ => none
+
+/-! ### the msgp-generated tuple types -/
+
+def EntryF : Fields Entry where
+  put f v m := match f, v with
+    | .Timestamp, .i64 i => some { m with ts := i }
+    | .Record, .obj o => some { m with record := o }
+    | _, _ => none
+  get _ _ := none
+
+def EntryExtF : Fields EntryExt where
+  put f v m := match f, v with
+    | .Timestamp, .et i => some { m with ts := i }
+    | .Record, .obj o => some { m with record := o }
+    | _, _ => none
+  get _ _ := none
+
+def PingF : Fields Ping where
+  put f v m := match f, v with
+    | .MessageType, .str s => some { m with mtype := s }
+    | .ClientHostname, .str s => some { m with hostname := s }
+    | .SharedKeySalt, .str s => some { m with salt := s }
+    | .SharedKeyHexDigest, .str s => some { m with digest := s }
+    | .Username, .str s => some { m with username := s }
+    | .Password, .str s => some { m with password := s }
+    | _, _ => none
+  get _ _ := none
+
+def PongF : Fields Pong where
+  put f v m := match f, v with
+    | .MessageType, .str s => some { m with mtype := s }
+    | .AuthResult, .bool b => some { m with authResult := b }
+    | .Reason, .str s => some { m with reason := s }
+    | .ServerHostname, .str s => some { m with hostname := s }
+    | .SharedKeyHexDigest, .str s => some { m with digest := s }
+    | _, _ => none
+  get _ _ := none
 
 end FV.Sk
 
